@@ -36,6 +36,10 @@ func c15StopSets() []c15Stops {
 	)
 	// two stops 2^-18 apart between ordinary ones (a hard edge), in the middle of the list
 	sets = append(sets, c15Stops{{Offset: 0.25, Color: c(0xff, 0, 0, 0xff)}, {Offset: 0.5, Color: c(0, 0xff, 0, 0xff)}, {Offset: 0.5 + 1.0/(1<<18), Color: c(0, 0, 0xff, 0xff)}, {Offset: 0.75, Color: c(0x20, 0x20, 0x20, 0x20)}})
+	// equal end colours with other colours in between
+	sets = append(sets, c15Stops{{Offset: 0, Color: c(0xff, 0, 0, 0xff)}, {Offset: 0.5, Color: c(0, 0, 0xff, 0xff)}, {Offset: 1, Color: c(0xff, 0, 0, 0xff)}})
+	// every stop of one colour (still a gradient: with spread none nothing is painted outside [0,1])
+	sets = append(sets, c15Stops{{Offset: 0.25, Color: c(0, 0xff, 0, 0xff)}, {Offset: 0.75, Color: c(0, 0xff, 0, 0xff)}})
 	var big c15Stops
 	for i := 0; i < 58; i++ {
 		a := uint8(255 - 3*i)
@@ -56,7 +60,7 @@ func c15StopSets() []c15Stops {
 	return sets
 }
 
-const c15QuickSets = 9
+const c15QuickSets = 11
 
 type c15Map struct {
 	vb   ivg.ViewBox
@@ -149,7 +153,7 @@ func init() {
 	mc.Register(&mc.Check{
 		ID:    "C15",
 		Level: "exploration",
-		Rule: "engine P over (stops x spread x shape x matrix x map x pixel): 9 stop lists (2,2,3,4,3,2,8,4,58 stops; first>0, last<1, transparent, equal neighbours, stops 2^-10 apart) x 4 spreads x 2 shapes; exact family: 11 dyadic matrices (one with entries 2^64) x 3 power-of-two viewBox/rectangle maps x pixel sweeps landing exactly on integers, stop offsets, midpoints and +-1000 (compared at the discontinuities, exact equality at stops); " +
+		Rule: "engine P over (stops x spread x shape x matrix x map x pixel): 11 stop lists (2,2,3,4,3,2,8,4,3,2,58 stops; first>0, last<1, transparent, equal neighbours, stops 2^-10 apart) x 4 spreads x 2 shapes; exact family: 11 dyadic matrices (one with entries 2^64) x 3 power-of-two viewBox/rectangle maps x pixel sweeps landing exactly on integers, stop offsets, midpoints and +-1000 (compared at the discontinuities, exact equality at stops); " +
 			"generic family: 10 (thorough 120: + 11 rotations x 5 scales x 2 translations, sheared) matrices x 12 maps x a 33x33 (thorough 129x129) pixel lattice; thorough adds 57 generated stop lists, one per stop count 2..58 (33x33 lattice) incl. negative coordinates (pixels within 1e-9 of a discontinuity of the active spread skipped and counted). The paint is obtained as a user gets it: register writes + gradient colour + full-rectangle path on a real Renderer, src image taken from Rasterizer.Draw; At(x,y) and the GradientConfig accessors are compared with the reference; a subset is rendered with raster/vec into an RGBA64 image. " +
 			"distinct = hash of (spread-mapped region, exactness, shape); non-trivial = pixel whose raw offset lies outside [0,1] or exactly on a stop",
 		Assumptions: []string{"|At - v| <= 1 of 65535 per channel (truncation vs rounding is not the property's subject)", "accessor matrix compared within 2^-40 (exact family) / 2^-21 (generic family: the renderer's scale is a float32) relative to the magnitude of the terms"},
@@ -508,7 +512,17 @@ func c15Check(w *mc.W, cs *c15Case) {
 					z.SetNSel((lay.nbase + uint8(last)) & 63)
 					z.SetNReg(0, false, float32(cur[last].Offset))
 				}
-				step(4, cur)
+				if step(4, cur) {
+					// (5) the raster is configured anew with another rectangle and the same gradient
+					// paints again, no register written in between: the pixel scale is the new one
+					old := mp
+					mp = c15Map{vb: old.vb, rect: image.Rect(2, 3, 2+old.rect.Dy()+7, 3+old.rect.Dx()+4)}
+					sx = float64(mp.rect.Dx()) / (float64(mp.vb.MaxX) - float64(mp.vb.MinX))
+					sy = float64(mp.rect.Dy()) / (float64(mp.vb.MaxY) - float64(mp.vb.MinY))
+					z.SetRasterizer(&ras, mp.rect)
+					step(5, cur)
+					mp = old
+				}
 			}
 		}
 	}
